@@ -75,6 +75,20 @@ Definition agree_imports (c : list (str * str) * list (str * str)) : bool :=
 Definition agree_class_list (c : list (str * list str) * list str * (list str + nat)) : bool :=
   let '(D, classes, obs) := c in agree_result lstr_eqb (s_create_class_list D classes) obs.
 
+(* ---- DependenciesResolver.process on one module: create_class_list, import_classes, sorted_imports ----
+   D: dependencies() of the module's classes; classes: the module's classes (class_map keys);
+   names: qname -> local name; observed: sorted_imports() as (qname, name) *)
+Fixpoint assoc_str0 (t : list (str * str)) (k : str) : str :=
+  match t with [] => k | (k', v) :: r => if str_eqb k k' then v else assoc_str0 r k end.
+Definition model_resolver (D : list (str * list str)) (classes : list str) (names : list (str * str))
+  : result (list (str * str)) :=
+  rmap (fun cl => sorted_imports (map (fun q => (q, assoc_str0 names q)) (import_classes str_eqb cl classes)))
+       (s_create_class_list D classes).
+Definition agree_resolver
+  (c : list (str * list str) * list str * list (str * str) * (list (str * str) + nat)) : bool :=
+  let '(D, classes, names, obs) := c in
+  agree_result (list_eqb pair_str_eqb) (model_resolver D classes names) obs.
+
 (* ---- group_by_strong_components end to end ----
    vorder: order of set(edges); E: obj.qname -> list(set(dependencies(True)));
    D: obj.qname -> list(dependencies()); names: qname -> local name;
